@@ -137,13 +137,13 @@ def runRequest (c : Ctx) : Option (List String) :=
 
 /-! ## C09 -/
 
-/-- some executed command failed ⇒ the invocation fails and its report names a task that failed (and no other).
+/-- some executed command failed ⇒ the invocation fails and its report names a task that did fail.
     `prevFailed`: the tasks that failed in the invocation before this one ⇒ when this invocation runs them again
     they really execute (their markers are in the log) and are not reported as skipped. -/
 def c09 (c : Ctx) (prevFailed : List String) (ob : Obs) : Verdict :=
   let failed := failedTasks c ob.log
   let named := (c.tasks.map (·.name)).filter (mentions ob.report)
-  let a := whenever (!failed.isEmpty) (ob.exit != 0 && !named.isEmpty && named.all failed.contains)
+  let a := whenever (!failed.isEmpty) (ob.exit != 0 && named.any failed.contains)
   let executed := (groupLog ob.log).filterMap (fun g => (taskAt c g.1).map (·.name))
   let b := match runRequest c with
     | some req =>
@@ -190,13 +190,9 @@ def c19 (c : Ctx) (ob : Obs) : Verdict :=
 
 def expectedCmd (k : CmdSpec) : CmdResult := ⟨k.interp, k.out, k.err, k.status⟩
 
-def indexOf? (xs : List String) (x : String) : Option Nat :=
-  let i := xs.findIdx (· == x)
-  if i < xs.length then some i else none
-
 /-- the single JSON document against the log: exactly the tasks of the run, the executed ones in the order the
     log shows and with the scripted text / stdout / stderr / status of every command that ran, the others
-    skipped and empty, dependencies before dependents -/
+    skipped and empty (where a skipped task stands among them cannot be observed and is not constrained) -/
 def jsonMatches (c : Ctx) (req : List String) (log : List (Nat × Nat)) (rs : List Result) : Bool :=
   let run := closure c req
   let names := rs.map (·.task)
@@ -212,10 +208,7 @@ def jsonMatches (c : Ctx) (req : List String) (log : List (Nat × Nat)) (rs : Li
     | some t =>
       (match groups.find? (fun g => (taskAt c g.1).map (·.name) == some r.task) with
        | some g => !r.skipped && r.cmds == g.2.filterMap (fun k => (t.cmds[k]?).map expectedCmd) && r.cmds.length == g.2.length
-       | none => r.cmds.isEmpty && (t.cmds.isEmpty || r.skipped)) &&
-      t.tdeps.all (fun d => match indexOf? names d, indexOf? names r.task with
-        | some i, some j => i < j
-        | _, _ => false))
+       | none => r.cmds.isEmpty && (t.cmds.isEmpty || r.skipped)))
 
 def rowOf (name text : String) : String := if text.isEmpty then name else name ++ " " ++ text
 
